@@ -41,6 +41,57 @@ fn val_types(ch: &mut Ch, n: usize) -> Vec<ValType> {
     (0..n).map(|_| *ch.pick(&all)).collect()
 }
 
+/// Functions that code refers to with `ref.func` and that nothing but one
+/// function export declares (no element segment, no global initialiser, no
+/// second export): removing or retargeting that export makes the module
+/// invalid by the rules of wasm, whatever walrus does.
+pub fn sole_declaring_exports(m: &Module) -> std::collections::HashSet<FunctionId> {
+    use std::collections::HashSet;
+    struct Refs(HashSet<FunctionId>);
+    impl<'a> Visitor<'a> for Refs {
+        fn visit_ref_func(&mut self, r: &RefFunc) {
+            self.0.insert(r.func);
+        }
+    }
+    let mut refs = Refs(HashSet::new());
+    for (_, f) in m.funcs.iter_local() {
+        dfs_in_order(&mut refs, f, f.entry_block());
+    }
+    let mut declared: HashSet<FunctionId> = HashSet::new();
+    for e in m.elements.iter() {
+        // (a passive segment that nothing refers to is removed by the GC pass
+        // even when it is the only declaration left: recorded under C06)
+        let removable = match &e.kind {
+            ElementKind::Passive => true,
+            ElementKind::Active { table, .. } => m.tables.get(*table).import.is_none(),
+            ElementKind::Declared => false,
+        };
+        if removable {
+            continue;
+        }
+        match &e.items {
+            ElementItems::Functions(v) => declared.extend(v.iter().copied()),
+            ElementItems::Expressions(_, v) => {
+                for x in v {
+                    if let ConstExpr::RefFunc(f) = x {
+                        declared.insert(*f);
+                    }
+                }
+            }
+        }
+    }
+    for g in m.globals.iter() {
+        if let GlobalKind::Local(ConstExpr::RefFunc(f)) = &g.kind {
+            declared.insert(*f);
+        }
+    }
+    refs.0
+        .into_iter()
+        .filter(|f| !declared.contains(f))
+        .filter(|f| m.exports.iter().filter(|e| matches!(e.item, ExportItem::Function(g) if g == *f)).count() == 1)
+        .collect()
+}
+
 /// Apply up to `n` edits; returns a description of each applied edit.
 pub fn apply(m: &mut Module, ch: &mut Ch, n: usize) -> Vec<String> {
     let mut log = Vec::new();
@@ -166,7 +217,18 @@ pub fn apply(m: &mut Module, ch: &mut Ch, n: usize) -> Vec<String> {
                 }
             }
             8 => {
-                let ex: Vec<ExportId> = m.exports.iter().map(|e| e.id()).collect();
+                // (an export can be what declares a function for `ref.func`:
+                // such an export is not deleted, the edit would not be well-formed)
+                let sole = sole_declaring_exports(m);
+                let ex: Vec<ExportId> = m
+                    .exports
+                    .iter()
+                    .filter(|e| match e.item {
+                        ExportItem::Function(f) => !sole.contains(&f),
+                        _ => true,
+                    })
+                    .map(|e| e.id())
+                    .collect();
                 if !ex.is_empty() {
                     let e = *ch.pick(&ex);
                     m.exports.delete(e);
@@ -186,7 +248,10 @@ pub fn apply(m: &mut Module, ch: &mut Ch, n: usize) -> Vec<String> {
                 if !imps.is_empty() {
                     let f = *ch.pick(&imps);
                     let results: Vec<ValType> = m.types.results(m.funcs.get(f).ty()).to_vec();
-                    let r = m.replace_imported_func(f, |(body, _args)| {
+                    let r = m.replace_imported_func(f, |(body, args)| {
+                        for a in args.iter() {
+                            body.local_get(*a).drop();
+                        }
                         for t in &results {
                             push_default(body, *t, 3);
                         }
@@ -206,10 +271,17 @@ pub fn apply(m: &mut Module, ch: &mut Ch, n: usize) -> Vec<String> {
                     })
                     .filter(|f| matches!(m.funcs.get(*f).kind, FunctionKind::Local(_)))
                     .collect();
+                // retargeting the export that alone declares a `ref.func` target
+                // is left to C18, where it is a recorded finding
+                let sole = sole_declaring_exports(m);
+                let exps: Vec<FunctionId> = exps.into_iter().filter(|f| !sole.contains(f)).collect();
                 if !exps.is_empty() {
                     let f = *ch.pick(&exps);
                     let results: Vec<ValType> = m.types.results(m.funcs.get(f).ty()).to_vec();
-                    let r = m.replace_exported_func(f, |(body, _args)| {
+                    let r = m.replace_exported_func(f, |(body, args)| {
+                        for a in args.iter() {
+                            body.local_get(*a).drop();
+                        }
                         for t in &results {
                             push_default(body, *t, 4);
                         }
